@@ -8,15 +8,16 @@ Local Open Scope N_scope.
 Section Proofs.
   Variable openers : list N.
   Variable pairs : list (N * N).
+  Variable terms : list N.
   Variable max_depth : nat.
   Variable depth_strict : bool.
 
-  Notation bstep := (bstep openers pairs max_depth depth_strict).
-  Notation bscan := (bscan openers pairs max_depth depth_strict).
+  Notation bstep := (bstep openers pairs terms max_depth depth_strict).
+  Notation bscan := (bscan openers pairs terms max_depth depth_strict).
   Notation bracket_step := (bracket_step openers pairs max_depth depth_strict).
   Notation over := (over max_depth depth_strict).
   Notation bracket_free := (bracket_free openers pairs).
-  Notation lex_end := (lex_end openers pairs).
+  Notation lex_end := (lex_end openers pairs terms).
 
   (* the lexical reading with the limit built in: None as soon as a push goes over *)
   Fixpoint lex_chk (m : lmode) (st : list N) (cs : list N) : option (lmode * list N) :=
@@ -24,7 +25,7 @@ Section Proofs.
     | [] => Some (m, st)
     | c :: rest =>
       match m with
-      | MComment => lex_chk (if c =? c_nl then MCode else MComment) st rest
+      | MComment => lex_chk (if is_term terms c then MCode else MComment) st rest
       | MStrEsc => lex_chk MStr st rest
       | MStr => lex_chk (if c =? c_bslash then MStrEsc else if c =? c_quote then MCode else MStr) st rest
       | MCode =>
@@ -72,7 +73,7 @@ Section Proofs.
     - repeat split.
       + (* in a comment *)
         intros (Hc & Hs & He & Hp). simpl. unfold Budget.bstep. rewrite Hc.
-        destruct (c =? c_nl).
+        destruct (is_term terms c).
         * destruct (IH (mkB (b_stack s) (b_in_string s) (b_escaped s) false (b_prev_slash s))) as (_ & _ & H3 & _).
           apply H3; [repeat split; assumption | exact Hp].
         * destruct (IH s) as (H1 & _). apply H1. repeat split; assumption.
@@ -220,7 +221,7 @@ Section Proofs.
   Proof.
     unfold Budget.bstep. intros H Hl.
     destruct (b_in_comment s).
-    { destruct (c =? c_nl); inversion H; subst; simpl; exact Hl. }
+    { destruct (is_term terms c); inversion H; subst; simpl; exact Hl. }
     destruct (b_in_string s).
     { destruct (b_escaped s); [inversion H; subst; exact Hl|].
       destruct (c =? c_bslash); [inversion H; subst; exact Hl|].
@@ -246,7 +247,7 @@ Section Proofs.
      open brackets, at every point it reaches *)
   Theorem scanner_agrees_with_lexical_reading cs s :
     bscan b_init cs = Some s ->
-    mode_of s = mode_after openers pairs cs /\ b_stack s = open_stack openers pairs cs.
+    mode_of s = mode_after openers pairs terms cs /\ b_stack s = open_stack openers pairs terms cs.
   Proof.
     intros H. pose proof (sim_init cs) as Hv. rewrite H in Hv. simpl in Hv. symmetry in Hv.
     apply (lex_chk_some (S (length cs))) in Hv; [|lia].
@@ -255,7 +256,7 @@ Section Proofs.
 
   Theorem accepted_is_within_depth cs s :
     bscan b_init cs = Some s ->
-    forall k, (length (open_stack openers pairs (firstn k cs)) <= max_depth)%nat.
+    forall k, (length (open_stack openers pairs terms (firstn k cs)) <= max_depth)%nat.
   Proof.
     intros H k. destruct (bscan_prefix cs b_init s k H) as [sk Hk].
     destruct (scanner_agrees_with_lexical_reading _ _ Hk) as [_ <-].
@@ -263,7 +264,7 @@ Section Proofs.
   Qed.
 
   Theorem beyond_depth_is_refused cs k :
-    (max_depth < length (open_stack openers pairs (firstn k cs)))%nat ->
+    (max_depth < length (open_stack openers pairs terms (firstn k cs)))%nat ->
     bscan b_init cs = None.
   Proof.
     intros Hk. destruct (bscan b_init cs) as [s|] eqn:H; [|reflexivity].
@@ -273,24 +274,24 @@ Section Proofs.
   (* refused for nesting only when some prefix really is over the limit *)
   Theorem refused_has_deep_prefix cs :
     bscan b_init cs = None ->
-    exists k, over (length (open_stack openers pairs (firstn k cs))) = true.
+    exists k, over (length (open_stack openers pairs terms (firstn k cs))) = true.
   Proof.
     intros H. pose proof (sim_init cs) as Hv. rewrite H in Hv. simpl in Hv. symmetry in Hv.
     apply (lex_chk_none (S (length cs))) in Hv; [|lia]. exact Hv.
   Qed.
 End Proofs.
 
-Lemma validate_ok_iff openers pairs max_len len_strict max_depth depth_strict cs :
-  validate_parser_budget openers pairs max_len len_strict max_depth depth_strict cs = BOk ->
+Lemma validate_ok_iff openers pairs terms max_len len_strict max_depth depth_strict cs :
+  validate_parser_budget openers pairs terms max_len len_strict max_depth depth_strict cs = BOk ->
   (input_len cs <= max_len)%N /\
-  exists s, bscan openers pairs max_depth depth_strict b_init cs = Some s.
+  exists s, bscan openers pairs terms max_depth depth_strict b_init cs = Some s.
 Proof.
   unfold validate_parser_budget.
   destruct len_strict.
   - destruct (max_len <? input_len cs) eqn:Hl; [discriminate|].
-    destruct (bscan _ _ _ _ _ _) as [s|]; [|discriminate]. intros _. split; [|eauto].
+    destruct (bscan _ _ _ _ _ _ _) as [s|]; [|discriminate]. intros _. split; [|eauto].
     apply N.ltb_ge in Hl. exact Hl.
   - destruct (max_len <=? input_len cs) eqn:Hl; [discriminate|].
-    destruct (bscan _ _ _ _ _ _) as [s|]; [|discriminate]. intros _. split; [|eauto].
+    destruct (bscan _ _ _ _ _ _ _) as [s|]; [|discriminate]. intros _. split; [|eauto].
     apply N.leb_gt in Hl. lia.
 Qed.
